@@ -15,6 +15,16 @@ CHECKS = [
      "products, nesting depth 2 and arity 3, against every JSON type.  A bounded-exhaustive statement, not a sample.",
      "trusts the reference evaluator (validated against the official suite in selftest) and the small-scope hypothesis; "
      "regexes limited to a predicate table; float multipleOf only on exact operands", "5 C01"),
+    ("C05", "exploration", "exhaustive enumeration; per-keyword decomposition (implementation vs itself) + location-multiset comparison with the reference evaluator",
+     "For every schema of the grammar with its instance universe, the errors attributed to each keyword equal the errors the "
+     "keyword yields alone with its consulted siblings (full identity incl. message, paths, values, context), and the "
+     "multiset of error locations equals the reference's one-error-per-violation expectation.",
+     "decomposition needs no oracle; counting trusts mc/ref/spec.py; bounded grammar and universe", "5 C05"),
+    ("C06", "exploration", "exhaustive enumeration; per-error invariants (paths, keyword, value, parent, json_path) and reference locations",
+     "Every error and context error produced over G x U_d satisfies the location invariants: the instance path reaches the "
+     "recorded instance, the schema path (hopping through references) reaches the recorded keyword value inside the recorded "
+     "schema, absolute = parent + relative, json_path renders the path; locations equal the reference evaluator's.",
+     "documented exceptions (draft 3 required, propertyNames, false schema) modelled explicitly; bounded grammar", "5 C06"),
 ]
 
 
